@@ -31,7 +31,27 @@ pub fn take_events() -> Vec<String> {
 
 /// Is a recorder installed.
 pub fn is_recording() -> bool {
-    SINK.lock().unwrap().is_some()
+    SINK.lock().unwrap().is_some() || file_sink().is_some()
+}
+
+/// A second sink for processes no harness controls (the repository's own tests):
+/// when `DATACAKE_VERIF_TRACE_DIR` is set every event is also appended to
+/// `<dir>/<pid>.ndjson`.
+fn file_sink() -> Option<&'static Mutex<std::fs::File>> {
+    static FILE: std::sync::OnceLock<Option<Mutex<std::fs::File>>> =
+        std::sync::OnceLock::new();
+    FILE.get_or_init(|| {
+        let dir = std::env::var_os("DATACAKE_VERIF_TRACE_DIR")?;
+        let path = std::path::Path::new(&dir)
+            .join(format!("{}.ndjson", std::process::id()));
+        std::fs::OpenOptions::new()
+            .create(true)
+            .append(true)
+            .open(path)
+            .ok()
+            .map(Mutex::new)
+    })
+    .as_ref()
 }
 
 /// Emits one event. The closure receives the process-wide sequence number,
@@ -39,9 +59,19 @@ pub fn is_recording() -> bool {
 /// equals sink order.
 pub fn emit(f: impl FnOnce(u64) -> String) {
     let mut lock = SINK.lock().unwrap();
+    let file = file_sink();
+    if lock.is_none() && file.is_none() {
+        return;
+    }
+    let seq = SEQ.fetch_add(1, Ordering::SeqCst);
+    let line = f(seq);
+    if let Some(file) = file {
+        use std::io::Write;
+        let mut file = file.lock().unwrap();
+        let _ = writeln!(file, "{}", line);
+    }
     if let Some(events) = lock.as_mut() {
-        let seq = SEQ.fetch_add(1, Ordering::SeqCst);
-        events.push(f(seq));
+        events.push(line);
     }
 }
 
